@@ -6,6 +6,7 @@ package main
 import (
 	"fmt"
 	"math/bits"
+	"strconv"
 	"strings"
 )
 
@@ -69,8 +70,17 @@ type Term struct {
 func (t *Term) IsConst() bool { return t.Op == OpConst }
 func (t *Term) IsBool() bool  { return t.W == 0 }
 
+type tkey struct {
+	op         Op
+	w          int
+	val        uint64
+	lo         int
+	a0, a1, a2 int
+	rest       string
+}
+
 type Ctx struct {
-	tab   map[string]*Term
+	tab   map[tkey]*Term
 	terms []*Term
 	nvar  int
 	True  *Term
@@ -78,19 +88,33 @@ type Ctx struct {
 }
 
 func NewCtx() *Ctx {
-	c := &Ctx{tab: map[string]*Term{}}
+	c := &Ctx{tab: map[tkey]*Term{}}
 	c.True = c.mk(&Term{Op: OpConst, W: 0, Val: 1})
 	c.False = c.mk(&Term{Op: OpConst, W: 0, Val: 0})
 	return c
 }
 
-func (c *Ctx) key(t *Term) string {
-	var sb strings.Builder
-	fmt.Fprintf(&sb, "%d|%d|%d|%d|%s", t.Op, t.W, t.Val, t.Lo, t.Name)
-	for _, a := range t.Args {
-		fmt.Fprintf(&sb, "|%d", a.ID)
+func (c *Ctx) key(t *Term) tkey {
+	k := tkey{op: t.Op, w: t.W, val: t.Val, lo: t.Lo, a0: -1, a1: -1, a2: -1, rest: t.Name}
+	n := len(t.Args)
+	if n > 0 {
+		k.a0 = t.Args[0].ID
 	}
-	return sb.String()
+	if n > 1 {
+		k.a1 = t.Args[1].ID
+	}
+	if n > 2 {
+		k.a2 = t.Args[2].ID
+	}
+	if n > 3 {
+		var sb strings.Builder
+		for _, a := range t.Args[3:] {
+			sb.WriteString(strconv.Itoa(a.ID))
+			sb.WriteByte(',')
+		}
+		k.rest = sb.String()
+	}
+	return k
 }
 
 func (c *Ctx) mk(t *Term) *Term {
